@@ -3,6 +3,7 @@ package main
 import (
 	"fmt"
 	"go/token"
+	"go/types"
 	"sort"
 	"strings"
 
@@ -489,6 +490,33 @@ func c44Gate(c *Ctx, funcs []*ssa.Function) {
 			seenAtom[atom(v, CondBool)] = true
 		}
 	})
+	if seenAtom[1] && !seenAtom[4] {
+		// the client address is looked up, but in another table than the node's own addresses
+		other := ""
+		eachInstr(fn, func(in ssa.Instruction) {
+			call, ok := in.(*ssa.Call)
+			if !ok || !matchAny(calleeObj(call), bartContainsRefs) {
+				return
+			}
+			a := callArgs(call)
+			if len(a) < 2 || !ip(a[1]) {
+				return
+			}
+			backSlice(a[0], sliceLocal, func(x ssa.Value) {
+				if u, ok := x.(*ssa.UnOp); ok && u.Op == token.MUL {
+					if fa, ok := u.X.(*ssa.FieldAddr); ok && fieldOfAddr(fa) != fTable {
+						if _, isNamed := fieldOfAddr(fa).Type().(*types.Pointer); isNamed {
+							other = fieldOfAddr(fa).Name()
+						}
+					}
+				}
+			})
+		})
+		if other != "" {
+			c.Bad("C44.gate-table", "isSelfNebulaOrLocalhost:own-address-table", c.P.Pos(fn.Pos()), "the gate looks the client address up in "+other+" instead of the table of the node's own overlay addresses: every client inside that table (e.g. any member of the overlay network) is handed certificate details")
+			return
+		}
+	}
 	if !seenAtom[1] || !seenAtom[4] {
 		c.Unknown("C44.gate-table", "isSelfNebulaOrLocalhost", "the loopback test / the own-address-table test on the parsed client address were not recognised: unrecognised shape, the table cannot be evaluated")
 		return
